@@ -352,7 +352,11 @@ impl TransactionWorkspace {
     ///
     /// Returns an error if the transaction is not in the `Active` state.
     pub fn add_operation(&self, op: ChainTransaction) -> Result<()> {
-        if !self.is_active() {
+        // The state is held (shared) until the operation is recorded: a commit that takes
+        // this workspace (`mark_committing`) waits for it, so an operation is either
+        // refused or part of what that commit reads.
+        let state = self.state.read();
+        if *state != TransactionState::Active {
             return Err(ChainError::TransactionFailed(
                 "transaction is not active".to_string(),
             ));
@@ -365,6 +369,7 @@ impl TransactionWorkspace {
         // Operations are recorded for replay into the committed block
         self.operations.write().push(op);
 
+        drop(state);
         Ok(())
     }
 
